@@ -71,7 +71,7 @@ Qed.
 Print Assumptions c10_fire_goroutine_fires_exactly_once.
 
 Theorem c10_fired_count_stable : forall k0 c s e,
-  match e with ERelSect _ | EStartCons _ | EConsStep _ | EConsCancel _ | EFire _ | ECbReturn _ _ => False | _ => True end ->
+  match e with ERelSect _ | EStartCons _ | EConsStep _ | EConsCancel _ | EFire _ | ECbReturn _ _ | EWatch _ => False | _ => True end ->
   fired_done c k0 (conss s) -> fired_done c k0 (conss (step repaired s e)).
 Proof. exact fired_stays. Qed.
 Print Assumptions c10_fired_count_stable.
@@ -101,27 +101,41 @@ Theorem c10_access_reference_in_set : forall ku es c x,
 Proof. exact access_ref_in_set. Qed.
 Print Assumptions c10_access_reference_in_set.
 
-(* inside the callback, while its context is not cancelled, the value it was invoked with is the container's current
-   value (resolved, no error), and no change was notified since Access looked (section S1) *)
+(* inside the callback, while its context is not cancelled and the watcher goroutine that is to cancel it has not been woken,
+   the value it was invoked with is the container's current value (resolved, no error), and no change was notified since
+   Access looked (section S1).  [ac_wpark]: the watcher goroutine of the invocation (`go func(){ select {...; case <-waitCh:
+   cbCancel() } }()`) was woken by a change and stands before its cbCancel() - hook site 5; its step is the event [EWatch] *)
 Theorem c10_access_called_with_current_value : forall ku es c x v,
   let s := run repaired (init ku) es in
-  nth_error (conss s) c = Some x -> ck x = CKAccess -> cpcv x = CAccCb v -> ac_cbcanc x = false ->
+  nth_error (conss s) c = Some x -> ck x = CKAccess -> cpcv x = CAccCb v -> ac_cbcanc x = false -> ac_wpark x = false ->
   resolved s = true /\ value s = v /\ verr s = 0 /\ ac_nonce x = ac_snap x.
 Proof. exact access_called_with_current_value. Qed.
 Print Assumptions c10_access_called_with_current_value.
 
 (* whenever the value the callback holds is invalidated - nothing resolved, another value, an error - before or during the
-   callback, the callback's context is cancelled (in every reachable state, hence "promptly": in the same section) *)
+   callback, the callback's context is cancelled or the watcher goroutine of the invocation has been woken (in every reachable
+   state: in the same section as the invalidation) and its step - enabled, it waits for nothing - cancels the context: "promptly"
+   = as soon as the watcher goroutine has run.  (Before the watcher was a schedule point of its own the statement read
+   "... -> ac_cbcanc x = true"; with the watcher between its wake-up and its cbCancel() that is false:
+   [ESetCtx 1; EStartCons 2; EProceed 0 true; EResReturn 0 1 false 0; EStore 0; EConsStep 0; ESetCtx 2] leaves the callback
+   running with an uncancelled context and the watcher parked: example c10_example_access_watcher below.) *)
 Theorem c10_access_ctx_cancelled_on_invalidation : forall ku es c x v,
   let s := run repaired (init ku) es in
   nth_error (conss s) c = Some x -> ck x = CKAccess -> cpcv x = CAccCb v ->
-  (resolved s = false \/ value s <> v \/ verr s <> 0) -> ac_cbcanc x = true.
+  (resolved s = false \/ value s <> v \/ verr s <> 0) -> ac_cbcanc x = true \/ ac_wpark x = true.
 Proof. exact access_ctx_cancelled_on_invalidation. Qed.
+Theorem c10_access_watcher_cancels : forall ku es c x,
+  let s := run repaired (init ku) es in
+  nth_error (conss s) c = Some x -> ac_wstale x = 0 -> ac_wpark x = true ->
+  ac_cbcanc (getc (step repaired s (EWatch c)) c) = true /\ ac_wpark (getc (step repaired s (EWatch c)) c) = false.
+Proof. exact access_watcher_cancels. Qed.
 Print Assumptions c10_access_ctx_cancelled_on_invalidation.
+Print Assumptions c10_access_watcher_cancels.
 
 (* the callback returns: Canceled if the caller's context is cancelled; the callback's own result only if no change was
    notified since Access looked (every notification moves [ac_nonce] past the snapshot, also when the value is equal
-   again); otherwise Access goes back to the top of its loop *)
+   again, and whether or not the watcher goroutine has cancelled the callback's context yet); otherwise Access goes back
+   to the top of its loop *)
 Theorem c10_access_returns_only_unraced_result : forall s c x v res,
   nth_error (conss s) c = Some x -> ck x = CKAccess -> cpcv x = CAccCb v ->
   let p := cpcv (getc (cb_return repaired s c res) c) in
@@ -155,7 +169,8 @@ Theorem c10_access_in_callback_at_rest : forall ku es c x,
   let s := run repaired (init ku) es in
   nth_error (conss s) c = Some x -> ck x = CKAccess -> attached_pc (cpcv x) = true -> acc_settled x = true ->
   resolved s = true ->
-  exists v, cpcv x = CAccCb v /\ (ac_cbcanc x = false -> v = value s /\ verr s = 0) /\ (verr s <> 0 -> ac_cbcanc x = true).
+  exists v, cpcv x = CAccCb v /\ (ac_cbcanc x = false -> ac_wpark x = false -> v = value s /\ verr s = 0) /\
+            (verr s <> 0 -> ac_cbcanc x = true \/ ac_wpark x = true).
 Proof. exact access_reinvoked_at_rest. Qed.
 Print Assumptions c10_access_in_callback_at_rest.
 
@@ -226,20 +241,37 @@ Example c10_example_cancel_passthrough :
   cpcv (getc s 0) = CRet 0 1 false.
 Proof. vm_compute. reflexivity. Qed.
 
-(* Access: invoked with the current value; invalidated during the callback (context cancelled); after the callback returns
-   it waits, and is invoked again with the replacement; an unraced result is returned *)
+(* Access: invoked with the current value; invalidated during the callback (the watcher goroutine is woken, its step cancels
+   the context); after the callback returns it waits, and is invoked again with the replacement; an unraced result is returned *)
 Example c10_example_access :
   let es := [ESetCtx 1; EStartCons 2; EConsStep 0; EProceed 0 true; EResReturn 0 1 true 0; EStore 0; EConsStep 0] in
   let s := run repaired (init false) es in
   cpcv (getc s 0) = CAccCb 1 /\ ac_cbcanc (getc s 0) = false /\ value s = 1 /\
-  let s1 := run repaired s [ESetCtx 2] in
-  cpcv (getc s1 0) = CAccCb 1 /\ ac_cbcanc (getc s1 0) = true /\ resolved s1 = false /\
+  let s0 := run repaired s [ESetCtx 2] in
+  cpcv (getc s0 0) = CAccCb 1 /\ ac_cbcanc (getc s0 0) = false /\ ac_wpark (getc s0 0) = true /\ resolved s0 = false /\
+  let s1 := run repaired s0 [EWatch 0] in
+  cpcv (getc s1 0) = CAccCb 1 /\ ac_cbcanc (getc s1 0) = true /\ ac_wpark (getc s1 0) = false /\
   let s2 := run repaired s1 [ECbReturn 0 10; EConsStep 0] in
   cpcv (getc s2 0) = CAccWait /\
   let s3 := run repaired s2 [EProceed 1 true; EResReturn 1 2 false 0; EStore 1; EConsStep 0] in
   cpcv (getc s3 0) = CAccCb 2 /\ ac_cbcanc (getc s3 0) = false /\
   let s4 := run repaired s3 [ECbReturn 0 11; ERelSect 0] in
   cpcv (getc s4 0) = CAccRet 11 /\ nrefs s4 = 0.
+Proof. vm_compute. repeat split; reflexivity. Qed.
+
+(* the callback returns in the window between the invalidation and the watcher's cbCancel(): its context is not cancelled
+   (it returns ctx.Err() = nil), and still its result is NOT returned: the nonce has moved; it is invoked again with the
+   replacement, whose result is returned; the parked watcher of the first invocation goes away without effect *)
+Example c10_example_access_watcher :
+  let es := [ESetCtx 1; EStartCons 2; EConsStep 0; EProceed 0 true; EResReturn 0 1 false 0; EStore 0; EConsStep 0; ESetCtx 2] in
+  let s := run repaired (init false) es in
+  cpcv (getc s 0) = CAccCb 1 /\ ac_cbcanc (getc s 0) = false /\ ac_wpark (getc s 0) = true /\ resolved s = false /\
+  let s1 := run repaired s [ECbReturn 0 1; EConsStep 0] in
+  cpcv (getc s1 0) = CAccWait /\ ac_wpark (getc s1 0) = false /\ ac_wstale (getc s1 0) = 1 /\
+  let s2 := run repaired s1 [EProceed 1 true; EResReturn 1 2 false 0; EStore 1; EConsStep 0; EWatch 0] in
+  cpcv (getc s2 0) = CAccCb 2 /\ ac_cbcanc (getc s2 0) = false /\ ac_wstale (getc s2 0) = 0 /\
+  let s3 := run repaired s2 [ECbReturn 0 11; ERelSect 0] in
+  cpcv (getc s3 0) = CAccRet 11.
 Proof. vm_compute. repeat split; reflexivity. Qed.
 
 Example c10_example_access_error :
@@ -252,7 +284,8 @@ Proof. vm_compute. reflexivity. Qed.
    shape) and EVERY list of harness events: on the observations the model itself produces (eager schedule of Spec.hstep; the
    run stops at the first event the model does not accept) the monitors [Spec.mon] - ALL clauses of C08, C09 and C10, nothing
    filtered - report nothing: 10.1 (not released while held), 10.2 (released callback at most once), 10.3 (fired once after an
-   invalidation, at rest), 10.4 (Access passes the current value), 10.5 (invalidated => the callback's context is cancelled),
+   invalidation, at rest), 10.4 (Access passes the current value), 10.5 (invalidated => the callback's context is cancelled promptly: as soon as the watcher goroutine of the invocation is no longer
+   parked before its cbCancel()),
    10.6 (the callback's result is returned only from an invocation that was not invalidated; re-invocation at rest),
    10.7 (resolver error / Canceled returned as such), and the observations always parse.
    So these monitors cannot raise an alarm on an implementation that behaves like the model, and the model satisfies the property
@@ -283,8 +316,9 @@ Example c10_example_monitors_aba :
   let evs := [[1; 1]; [10; 2]; [7; 0; 1]; [8; 0; 1; 0]; [9; 0]; [5; 0]; [7; 1; 1]; [8; 1; 1; 0]; [9; 1]; [13; 0; 10]; [13; 0; 11]; [4; 0]]%N in
   let obs := run_obs step_opt (hinit [0; 1]%N) evs in
   length obs = length evs /\ run_check_refcount [0; 1]%N evs obs = [] /\
-  (* the consumer's row (code v e held fired firepc) after the first return, after the second, and at the end *)
-  map (fun o => skipn (length o - 6) o) (skipn 9 obs) = [[6; 7; 0; 0; 0; 0]; [2; 0; 0; 0; 0; 0]; [3; 11; 0; 0; 0; 0]]%N.
+  (* the consumer's row (code v parked-watchers held fired firepc) after the first return, after the second, and at the end
+     (the watcher of the first invocation was woken by released() and is still parked: the callback returned before its cbCancel()) *)
+  map (fun o => skipn (length o - 6) o) (skipn 9 obs) = [[6; 7; 1; 0; 0; 0]; [2; 0; 1; 0; 0; 0]; [3; 11; 1; 0; 0; 0]]%N.
 Proof. vm_compute. repeat split; reflexivity. Qed.
 
 (* the clause-wise corollaries (kept: the partial statements the full one supersedes) *)
